@@ -136,7 +136,11 @@ pub fn create_raw_dict_from_source<R: io::Read, W: io::Write>(
         source
             .read_to_end(&mut buf)
             .expect("Could not read from source");
-        output.write_all(&buf).expect("Could not write to output");
+        // Never write more than the requested dictionary size
+        let len = usize::min(buf.len(), dict_size);
+        output
+            .write_all(&buf[..len])
+            .expect("Could not write to output");
         return;
     }
     vprintln!("create_dict: creating {dict_size} byte dict from {source_size} byte source");
@@ -192,11 +196,24 @@ pub fn create_raw_dict_from_source<R: io::Read, W: io::Write>(
         "create_dict: {epoch_counter} epochs written, writing {} segments",
         pool.len()
     );
+    // The pool holds one segment per epoch, which is usually far more than the requested dictionary size.
+    // Keep only as many of the highest scoring segments as fit (the last one kept may be cut short).
+    let mut budget = dict_size;
+    let mut selected: Vec<(Segment, usize)> = Vec::new();
+    // `into_sorted_vec` is ascending by `Reverse<Segment>`, so highest score first
+    for Reverse(segment) in pool.into_sorted_vec() {
+        if budget == 0 {
+            break;
+        }
+        let len = usize::min(segment.raw.len(), budget);
+        budget -= len;
+        selected.push((segment, len));
+    }
     // Write the dictionary with the highest scoring segment last because
     // closer items can be represented with a smaller offset
-    while let Some(segment) = pool.pop() {
+    for (segment, len) in selected.iter().rev() {
         output
-            .write_all(&segment.0.raw)
+            .write_all(&segment.raw[..*len])
             .expect("can write to output");
     }
 }
